@@ -8,8 +8,30 @@ id=$1; suf=$2
 wt=/tmp/wt/$id-$suf; out=/tmp/seedout/$id-$suf
 mkdir -p /tmp/wt /tmp/seedout "$out"
 [ -d "$wt" ] || git -C /repo worktree add -q --detach "$wt" HEAD
-avoid=$(for d in /verif/seeded/$id-*; do [ -f $d/patch.diff ] || continue
-  grep -E '^(\+\+\+ b/|@@)' $d/patch.diff | sed -E 's/^@@[^@]*@@ ?//' | awk '/^\+\+\+/{f=substr($2,3); next} NF{print "* `" f "` — `" $0 "`"}' ; done | sort -u)
+avoid=$(python3 - "$id" <<'PY2'
+import sys,glob,re,os
+id=sys.argv[1]; out=set()
+for d in sorted(glob.glob(f'/verif/seeded/{id}-*')):
+    p=os.path.join(d,'patch.diff')
+    if not os.path.exists(p): continue
+    cur=None; oldno=0
+    for line in open(p,errors='replace'):
+        if line.startswith('+++ b/'): cur=line[6:].strip(); continue
+        if line.startswith('--- '): continue
+        m=re.match(r'^@@ -(\d+)',line)
+        if m: oldno=int(m.group(1)); continue
+        if cur is None or not cur.endswith('.go'): continue
+        if line.startswith('-') or line.startswith('+'):
+            # enclosing function of this position in the current tree
+            try: src=open('/repo/'+cur,errors='replace').read().split('\n')
+            except Exception: continue
+            k=min(max(oldno-1,0),len(src)-1)
+            while k>=0 and not src[k].startswith('func '): k-=1
+            if k>=0: out.add('* `%s` — `%s`'%(cur,src[k][:110].rstrip(' {')))
+        if not line.startswith('+'): oldno+=1
+print('\n'.join(sorted(out)))
+PY2
+)
 python3 - "$id" "$wt" "$out" <<PY
 import json,sys
 id,wt,out=sys.argv[1:4]
